@@ -4,10 +4,11 @@ from core import *
 
 FIXTURE = os.path.join(VERIF, "selftest", "fixtures", "alias_fix.c")
 EXPECT = {"fix_stale_ptr": ("R-STALE", "stale:up"), "fix_clobber_order": ("R-CLOBBER", "clobber:v:w"),
-          "fix_extent_carry": ("R-EXTENT", "overrun:w"), "fix_alias_good": None, "fix_alias_guarded": None}
+          "fix_extent_carry": ("R-EXTENT", "overrun:w"), "fix_alias_good": None, "fix_alias_guarded": None,
+          "fix_constsrc_scratch": ("R-CONSTSRC", "constsrc:u"), "fix_constsrc_guarded": None}
 
 
-def run(prop="C05", tier="quick", rules=("R-STALE", "R-CLOBBER", "R-OVERLAP")):
+def run(prop="C05", tier="quick", rules=("R-STALE", "R-CLOBBER", "R-OVERLAP", "R-CONSTSRC")):
     r = aliasflow.run_rules(prop, rules=rules, extra_files=[FIXTURE])
     fx = [f for f in r["findings"] if f.file == FIXTURE]
     r["findings"] = [f for f in r["findings"] if f.file != FIXTURE]
@@ -26,6 +27,11 @@ def run(prop="C05", tier="quick", rules=("R-STALE", "R-CLOBBER", "R-OVERLAP")):
     if "R-OVERLAP" in rules:
         r["obligations"] += st.get("overlap_obligations", 0)
         r["undecided"] = r.get("undecided", 0) + st.get("overlap_undecided", 0)
+    if "R-CONSTSRC" in rules:
+        if st.get("constsrc_obligations", 0) < 3:
+            raise AnalysisBroken("R-CONSTSRC: only %d writes through input-only operands seen (floor 3: mpz_root, mpz_rootrem x2)" % st.get("constsrc_obligations", 0))
+        r["obligations"] += st.get("constsrc_obligations", 0)
+        r["undecided"] = r.get("undecided", 0) + st.get("constsrc_undecided", 0)
     if "R-EXTENT" in rules:
         r["obligations"] += st.get("extent_obligations", 0)
         r["undecided"] = r.get("undecided", 0) + st.get("extent_undecided", 0)
